@@ -84,10 +84,36 @@ def _case(draw: Any, args: dict) -> dict:
         if origin_uses:
             m0["decls"].append(gt.func(namer.fresh("uses_moved"), [gt.param("a", "pos", ["cls", classes[-1]["ref"]], None)], ret=["none"]))
 
-    current: dict[str, Any] = {"mod": None}
+    # plain public classes of deeper modules re-exported by a sibling package 'api' (not an ancestor of their module)
+    secluded: set[str] = set()
+    deep = [(m, d) for m in modules if len(m["path"]) >= 3 and not m["path"][-1].startswith("_") for d in m["decls"] if d["t"] == "class" and not d["tags"] and not d["tparams"] and not d["members"]]
+    if deep and draw(st.integers(0, 2)) == 0:
+        picks = draw(st.lists(st.sampled_from(range(len(deep))), min_size=min(2, len(deep)), max_size=3, unique=True))
+        two_targets = len(picks) >= 2 and draw(st.booleans())
+        for i in picks:
+            m, d = deep[i]
+            own = next(c for c in classes if c["ref"] == f"{'.'.join(m['path'])}:{d['name']}")
+            own["moved_from"] = ".".join(m["path"])
+            # ... the last one sometimes by a second sibling package
+            target = "zext" if two_targets and i == picks[-1] else "api"
+            inits.setdefault(f"{pkgname}/{target}", []).append(["from", ".".join(m["path"]), d["name"], None])
+        modules.append(gt.module([pkgname, "api", "tools"], [gt.func(namer.fresh("tool"), [], ret=["str"])]))
+        if two_targets:
+            modules.append(gt.module([pkgname, "zext", "tools"], [gt.func(namer.fresh("tool"), [], ret=["str"])]))
+        # half of the time only re-exported classes reference them (nothing that stays in its module does)
+        if draw(st.booleans()):
+            for i in picks:
+                m, d = deep[i]
+                secluded.add(f"{'.'.join(m['path'])}:{d['name']}")
+
+    current: dict[str, Any] = {"mod": None, "moved": False}
 
     def a_type(depth: int = 1) -> list:
-        pool = [c for c in classes if not (c.get("moved_from") == current["mod"] and "ref:moved_class_from_origin" not in c["tags"])]
+        # a declaration that stays in a module does not reference classes moved out of that module (open finding
+        # KF-C11-moved-class-from-origin-name); a moved class may reference anything
+        pool = [c for c in classes if current["moved"] or not (c.get("moved_from") == current["mod"] and "ref:moved_class_from_origin" not in c["tags"])]
+        if not current["moved"]:
+            pool = [c for c in pool if c["ref"] not in secluded]
         c = draw(st.sampled_from(pool))
         if c["kind"] == "generic":
             base: list = ["generic", c["ref"], [a_type(0) if depth else ["int"]]]
@@ -114,13 +140,37 @@ def _case(draw: Any, args: dict) -> dict:
             return ["callable", [base], ["none"]]
         return base
 
+    # the referenced classes reference classes themselves (also their own class): a class that a package re-exports then
+    # carries its references into the re-export stub, next to other re-exported classes that reference it
+    by_ref = {c["ref"]: c for c in classes}
     for m in modules:
         current["mod"] = ".".join(m["path"])
+        for d in m["decls"]:
+            if d["t"] != "class" or d["name"].startswith("_"):
+                continue
+            own = by_ref.get(f"{current['mod']}:{d['name']}")
+            if own is None:
+                continue
+            current["moved"] = own.get("moved_from") == current["mod"] or m["path"][-1].startswith("_")
+            api_refs = [c["ref"] for c in classes if str(c.get("moved_from", "")).count(".") >= 2]
+            if own["ref"] in api_refs and len(api_refs) >= 2 and draw(st.integers(0, 2)) > 0:
+                # classes re-exported by the same package reference each other (and themselves)
+                other = draw(st.sampled_from([r for r in api_refs if r != own["ref"]]))
+                d["members"].append(gt.func(namer.fresh("peer"), [gt.param(namer.fresh("o"), "pos", ["cls", own["ref"]], None)], ret=["list", ["cls", other]], kind="method"))
+            if own["kind"] == "class" and draw(st.integers(0, 2)) == 0:
+                d["members"].append(gt.func(namer.fresh("same"), [gt.param(namer.fresh("o"), "pos", ["cls", own["ref"]], None)], ret=["cls", own["ref"]], kind="method"))
+            for _ in range(draw(st.sampled_from([0, 0, 1, 2]))):
+                d["members"].append(gt.func(namer.fresh("tm"), [gt.param(namer.fresh("q"), "pos", a_type(), None)], ret=a_type(), kind="method"))
+    current["moved"] = False
+    for m in modules:
+        current["mod"] = ".".join(m["path"])
+        if m["path"][-1] == "tools" and m["path"][-2] in {"api", "zext"}:
+            continue
         for _ in range(draw(st.integers(1, 3))):
             params = [gt.param(namer.fresh("p"), "pos", a_type(), None) for _ in range(draw(st.integers(1, 3)))]
             m["decls"].append(gt.func(namer.fresh("fn"), params, ret=a_type()))
         for _ in range(draw(st.integers(0, 2))):
-            publics = [c for c in classes if c["kind"] == "class" and "ref:nested_class" not in c["tags"] and not c["name"].startswith("_") and not (c.get("moved_from") == current["mod"] and "ref:moved_class_from_origin" not in c["tags"])]
+            publics = [c for c in classes if c["ref"] not in secluded and c["kind"] == "class" and "ref:nested_class" not in c["tags"] and not c["name"].startswith("_") and not (c.get("moved_from") == current["mod"] and "ref:moved_class_from_origin" not in c["tags"])]
             bases = []
             if publics:
                 for c in draw(st.lists(st.sampled_from(publics), max_size=2, unique_by=lambda c: c["ref"])):
